@@ -89,6 +89,16 @@ def onShiftAt (c : CalEnv) (rc : ResCal) (i : Int) : Bool :=
       h.on (weekday lt) (minuteOfDay lt)
     | none => projWorkAt c i
 
+/-- `initScoreboard` marks the slots `range(idx(a), min(idx(b), size))` of every global leave and
+    resource leave `[a, b)` with leave bits (Python list indexing: a negative index wraps around).
+    A marked slot with no time used yet is not available even if its first instant is on shift
+    (only possible when the leave boundary lies inside the slot: calendars not aligned to the grid). -/
+def leaveMarkedAt (c : CalEnv) (rc : ResCal) (n : Int) : Bool :=
+  (c.gleaves ++ rc.leaves).any (fun iv =>
+    let lo := Int.tdiv (iv.1 - c.start) c.G
+    let hi := min (Int.tdiv (iv.2 - c.start) c.G) c.size
+    (decide (lo ≤ n) && decide (n < hi)) || (decide (lo ≤ n - c.size) && decide (n - c.size < hi) && decide (n - c.size < 0)))
+
 /-- daily limit period: calendar-day difference to the project start -/
 def dayIdxAt (c : CalEnv) (i : Int) : Int := dayOf (c.time i) - dayOf c.start
 
